@@ -107,6 +107,7 @@ def run(chk):
     chk.section("unpacking", lambda: unpacking(chk))
     chk.section("place-indices", lambda: place_indices(chk))
     chk.section("augassign-index", lambda: augassign_index(chk))
+    chk.section("iteration", lambda: iteration(chk))
     chk.expected_min_obligations = 20
     chk.assumptions += [
         "HUGR op semantics (hugr std collections.array / borrow_arr, prelude): array.get returns Some(a[i]) iff i < n and the unchanged array; array.set returns Right((old, a[i:=v])) iff i < n; borrow_array.borrow(a, i) panics unless i < n and element i is present, yields the element and marks it lent; borrow_array.return panics unless i < n and element i is lent; pop_left/pop_right remove the first/last element; convert itousize reinterprets the 64-bit integer as unsigned",
@@ -114,7 +115,7 @@ def run(chk):
         "array lengths are below 2^63",
         "unpacking patterns with at most 2 names on each side of the starred target are enumerated",
     ]
-    chk.not_covered += ["iteration (ArrayIter.__next__), comprehensions (visit_DesugaredArrayComp) and copy(); the borrow-array runtime itself"]
+    chk.not_covered += ["array comprehensions (visit_DesugaredArrayComp) and copy() as contracts (the native replay exercises them); that a `for` loop calls __next__ until nothing (C03); the borrow-array runtime itself"]
 
 
 class Pfx:
@@ -631,6 +632,141 @@ try:
     try:
         got = [list(x) for x in list(m.main.emulator(n_qubits=1).run().results)[0].entries]
         want = [["calls", 2], ["x1", 25], ["x2", 37]]
+        out = {"violates": got != want, "observed": got, "required": want}
+    except Exception as ex:
+        out = {"violates": "anic" in str(ex), "observed": str(ex)[:200]}
+except Exception as ex:
+    out = {"violates": False, "error": repr(ex)[:300]}
+shutil.rmtree(d, ignore_errors=True)
+print(json.dumps(out))
+'''
+
+
+def iteration(chk):
+    """Iteration sees the elements in index order (guppylang/std/array.py, Guppy mode via guppycoll):
+    `array.__iter__` starts the iterator ArrayIter(xs, 0); `ArrayIter.__next__` in a state (xs, i)
+    with 0 <= i <= n (the invariant: established by __iter__, preserved by every step) returns
+    some((xs[i], ArrayIter(xs, i + 1))) iff i < n — the SAME array, the next index — and otherwise
+    discards the array and returns nothing(); it never panics in such a state.  By induction on i the
+    k-th value a `for` loop sees is element k, and the loop ends after element n - 1.  The element
+    read is `_array_unsafe_getitem`, bound to the ArrayGetitemCompiler whose contract (element i iff
+    0 <= i < n, else panic) is proved above and used here as the callee's contract.
+    The frozenarray iterator has the same shape and is checked the same way."""
+    from . import guppycoll as GC
+    from .guppycoll import MInt, GOpt
+    from pyvc import SOpq
+    AM = "guppylang.std.array"
+    e = mk_engine(chk)
+    GC.install(e, [AM])
+    N = z3.Int("n")
+    i0 = z3.Int("i")
+    T = z3.DeclareSort("Elem")
+    XS = z3.Const("xs", z3.ArraySort(z3.IntSort(), T))
+    AC = ClassVal("SymArray", builtin=True)
+    for q in ("ArrayIter.__next__", "array.__iter__", "FrozenarrayIter.__next__", "frozenarray.__iter__"):
+        try:
+            e.func_info(AM, q)
+        except KeyError:
+            pass
+
+    def world(it, log):
+        m = e.module(AM)
+
+        def getitem(xs, i):
+            i = MInt.of(i)
+            log.append(("getitem", xs, i.t))
+            if it.ctx.branch(z3.Or(i.t < 0, i.t >= N)):
+                GC.panic(it, "array index out of bounds")
+            return SOpq(z3.Select(xs.fields["arr"], i.t), "Elem")
+        g = it.ctx.mod_globals(m)
+        AC.attrs["__getitem__"] = Builtin("__getitem__", getitem)      # frozenarray[i]: FrozenarrayGetitemCompiler, same contract assumed
+        g["_array_unsafe_getitem"] = Builtin("_array_unsafe_getitem", getitem)
+        g["_array_discard_all_used"] = Builtin("_array_discard_all_used", lambda xs: log.append(("discard", xs)))
+        g["n"] = MInt(N)
+        g["int"] = Builtin("int", lambda v: MInt.of(v))
+        g["SizedIter"] = Builtin("SizedIter", lambda x: ("SizedIter", x))
+        return m, SObj(AC, {"arr": XS})
+
+    for cls, arrcls in (("ArrayIter", "array"), ("FrozenarrayIter", "frozenarray")):
+        def t_next(it, cls=cls):
+            log = []
+            m, xs = world(it, log)
+            it.ctx.assume(N >= 0)
+            it.ctx.assume(N < (1 << 62))
+            it.ctx.assume(z3.And(i0 >= 0, i0 <= N))
+            AI = it.lookup_global(m, cls)
+            st = SObj(AI, {"xs": xs, "i": MInt(i0)})
+            r = it.call_method(st, "__next__", [])
+            return r, xs, log, AI
+        paths = e.explore(t_next)
+
+        def post(p, cls=cls):
+            if p.kind != "return":
+                return z3.BoolVal(False)            # no panic, no exception in a state satisfying the invariant
+            r, xs, log, AI = p.value
+            if not isinstance(r, GOpt):
+                return z3.BoolVal(False)
+            if z3.is_true(z3.simplify(r.some)) if z3.is_expr(r.some) else bool(r.some):
+                v = r.payload
+                ok = isinstance(v, tuple) and len(v) == 2 and isinstance(v[0], SOpq) and isinstance(v[1], SObj) and v[1].cls is AI and v[1].fields["xs"] is xs
+                if not ok:
+                    return z3.BoolVal(False)
+                ni = MInt.of(v[1].fields["i"]).t
+                reads = [x for x in log if x[0] == "getitem"]
+                return z3.And(i0 < N, v[0].t == z3.Select(XS, i0), ni == i0 + 1, ni >= 0, ni <= N, z3.BoolVal(len(reads) == 1 and reads[0][1] is xs and not any(x[0] == "discard" for x in log)))
+            dis = [x for x in log if x[0] == "discard"]
+            want_dis = 1 if cls == "ArrayIter" else 0
+            return z3.And(i0 >= N, z3.BoolVal(len(dis) == want_dis and all(x[1] is xs for x in dis) and not any(x[0] == "getitem" for x in log)))
+        chk.prove_paths(f"{cls}.__next__[state (xs, i), 0<=i<=n]:some((xs[i], iterator over the same array at i+1))<=>i<n;else-nothing(array-discarded);invariant-kept;never-panics", paths, post,
+                        func=f"{AM}:{cls}.__next__", replay=lambda m_: {"script": REPLAY_ITER, "input": {}})
+        chk.record(f"{cls}.__next__:both-outcomes-explored", sum(1 for p in paths if p.kind == "return") >= 2, str([p.kind for p in paths]), kind="reachability")
+
+        def t_iter(it, arrcls=arrcls, cls=cls):
+            log = []
+            m, xs = world(it, log)
+            A = it.lookup_global(m, arrcls)
+            f, _ = A.lookup("__iter__")
+            r = it.call(f, [xs], {})
+            return r, xs, it.lookup_global(m, cls), log
+        paths = e.explore(t_iter)
+
+        def post_iter(p):
+            if p.kind != "return":
+                return z3.BoolVal(False)
+            r, xs, AI, log = p.value
+            ok = isinstance(r, tuple) and r[0] == "SizedIter" and isinstance(r[1], SObj) and r[1].cls is AI and r[1].fields["xs"] is xs and log == []
+            if not ok:
+                return z3.BoolVal(False)
+            return MInt.of(r[1].fields["i"]).t == 0
+        chk.prove_paths(f"{arrcls}.__iter__:starts-the-iterator-over-the-same-array-at-index-0", paths, post_iter, func=f"{AM}:{arrcls}.__iter__",
+                        replay=lambda m_: {"script": REPLAY_ITER, "input": {}})
+    chk.use_engine(e)
+
+
+REPLAY_ITER = r'''
+import guppy_plainbool
+import tempfile, importlib.util, os, sys, shutil
+src = """from guppylang import guppy
+from guppylang.std.builtins import array, result
+@guppy
+def main() -> None:
+    xs = array(10, 20, 30, 40)
+    for x in xs:
+        result("x", x)
+    ys = array(1, 2, 3)
+    zs = array(y * 2 for y in ys)
+    for z in zs:
+        result("z", z)
+    ws = zs.copy()
+    result("w0", ws[0]); result("w2", ws[2])
+"""
+d = tempfile.mkdtemp(dir=os.environ.get("TMPDIR", "/var/tmp")); fn = os.path.join(d, "replay_c19i.py"); open(fn, "w").write(src)
+spec = importlib.util.spec_from_file_location("replay_c19i", fn); m = importlib.util.module_from_spec(spec); sys.modules["replay_c19i"] = m
+try:
+    spec.loader.exec_module(m)
+    try:
+        got = [list(x) for x in list(m.main.emulator(n_qubits=1).run().results)[0].entries]
+        want = [["x", 10], ["x", 20], ["x", 30], ["x", 40], ["z", 2], ["z", 4], ["z", 6], ["w0", 2], ["w2", 6]]
         out = {"violates": got != want, "observed": got, "required": want}
     except Exception as ex:
         out = {"violates": "anic" in str(ex), "observed": str(ex)[:200]}
